@@ -317,6 +317,16 @@ impl Pair {
         std::mem::take(&mut g.v)
     }
 
+    pub fn take_mcb_ordered(&mut self) -> (Vec<MCb>, Vec<u64>) {
+        let mut g = self.mcb.lock().unwrap();
+        (std::mem::take(&mut g.v), std::mem::take(&mut g.ord))
+    }
+
+    pub fn take_ocb_ordered(&mut self) -> (Vec<Cb>, Vec<u64>) {
+        let mut g = self.ocb.lock().unwrap();
+        (std::mem::take(&mut g.v), std::mem::take(&mut g.ord))
+    }
+
     pub fn take_ocb(&mut self) -> Vec<Cb> {
         let mut g = self.ocb.lock().unwrap();
         g.ord.clear();
